@@ -19,11 +19,11 @@ New  == Step("New") /\ ~s.alive /\ s' = [s EXCEPT !.alive = TRUE]
 Fake == Step("Fake") /\ s.alive /\ Ev.ok /\ s' = [s EXCEPT !.faked[Ev.a] = Ev.v]
 \* a request the operating system refused: it panicked (mprotect) and nothing changed
 \* (the trampoline mapped for it stays behind: observed, outside the listed properties -- C12 speaks of successful
-\* installations -- and accounted for as an orphan, as in Trace_Api)
+\* installations -- and accounted for as an orphan, as in Trace_Api; a version that gives it back is just as welcome: <=)
 FakeRefused == Step("FakeRefused") /\ s.alive /\ ~Ev.ok /\ Ev.cls = "mprotect"
                /\ s' = [s EXCEPT !.orph = @ + 1, !.fresh = {}]
-Drop == Step("Drop") /\ s.alive /\ Ev.live = s.orph /\ s' = [S0 EXCEPT !.orph = s.orph]
-PanicDrop == Step("PanicDrop") /\ s.alive /\ Ev.live = s.orph /\ Ev.lock # 1 /\ s' = [S0 EXCEPT !.orph = s.orph]
+Drop == Step("Drop") /\ s.alive /\ Ev.live <= s.orph /\ s' = [S0 EXCEPT !.orph = s.orph]
+PanicDrop == Step("PanicDrop") /\ s.alive /\ Ev.live <= s.orph /\ Ev.lock # 1 /\ s' = [S0 EXCEPT !.orph = s.orph]
 
 Await ==
   /\ Step("Await")
